@@ -48,7 +48,7 @@ partial def loop {σ : Type} (init : σ) (step : σ → List String → σ × St
   let rec go (s : σ) : IO Unit := do
     let line ← stdin.getLine
     if line.isEmpty then return ()
-    let l := (line.dropRightWhile (fun c => c = '\n' || c = '\r'))
+    let l := (line.dropRightWhile (fun c => c = (Char.ofNat 10) || c = (Char.ofNat 13)))
     if l.startsWith "#" then
       stdout.putStrLn l
       go init
